@@ -368,6 +368,17 @@ def describe_uann(u):
     raise ValueError('unknown upgraded annotation %r' % (u,))
 
 
+def _desc(fn, r, bad):
+    """describe a replace() result; a result whose extra slots are not even of the
+    right shape is a violation of its own, not a harness crash"""
+    try:
+        return fn(r)
+    except Exception as e:  # noqa: BLE001
+        bad.append(('C14:replace-malformed', 'the result of replace cannot be described (%s: %s); slots: %r' % (
+            type(e).__name__, e, {k: getattr(r, k, None) for k in ('sources', 'source_depths', 'upgraded_annotation', 'upgraded_return_annotation') if hasattr(r, k)})))
+        return None
+
+
 def describe_param(p):
     up = isinstance(p, UP)
     d = {'id': obj_id(p), 'up': up, 'name': id_of_name(p.name), 'kind': KIND_NAMES[p.kind],
@@ -591,6 +602,179 @@ def h7(x, *args, **kwargs):
     return h4(*args, **kwargs)
 NAMES = ['h0', 'h1', 'h2', 'h3', 'h4', 'h4b', 'h5', 'h6', 'h7']
 '''
+
+# Section F (harness only, OUTSIDE the model's value domain: the model interns
+# evaluated annotations as numbers whose == is reflexive and stable): annotations
+# whose value is not equal to a second evaluation of itself -- a postponed
+# expression building a fresh object each time, or NaN.
+FRESH_SRC_POST = '''from __future__ import annotations
+import functools
+class Marker:
+    def __init__(self, **meta): self.meta = meta
+def handler(item_id: Marker(gt=0), *, flag: Marker(alias='f') = False) -> Marker(status=200): pass
+def ret_only(a, b=1) -> object(): pass
+def par_only(a: object(), /, *args: Marker(), **kw: object()): pass
+def fwd(x, *args, **kwargs):
+    return handler(*args, **kwargs)
+def nan_post(a: float('nan') = 1, *, k: float('nan')) -> float('nan'): pass
+class C:
+    def meth(self, q: Marker(lt=3), r=2) -> object(): pass
+c = C()
+part = functools.partial(handler, flag=True)
+NAMES = ['handler', 'ret_only', 'par_only', 'fwd', 'nan_post', 'C.meth', 'c.meth', 'part']
+'''
+
+FRESH_SRC_EAGER = '''
+NAN = float('nan')
+def nan_eager(a: NAN, b: float('nan') = 2) -> NAN: pass
+def nan_default(a=NAN, *, k: NAN = NAN): pass
+class M:
+    def meth(self, q: NAN) -> float('nan'): pass
+m = M()
+NAMES = ['nan_eager', 'nan_default', 'M.meth', 'm.meth']
+'''
+
+_FRESH = {}
+
+
+def fresh_modules():
+    if _FRESH:
+        return _FRESH
+    tmp = tempfile.mkdtemp(prefix='verif-c14-')
+    _TMP.append(tmp)
+    for modname, src in (('c14_fresh_post', FRESH_SRC_POST), ('c14_fresh_eager', FRESH_SRC_EAGER)):
+        path = os.path.join(tmp, modname + '.py')
+        with open(path, 'w') as f:
+            f.write(src)
+        spec = importlib.util.spec_from_file_location(modname, path)
+        mod = importlib.util.module_from_spec(spec)
+        sys.modules[modname] = mod
+        spec.loader.exec_module(mod)
+        _FRESH[modname] = mod
+    return _FRESH
+
+
+def fresh_names():
+    out = [(modname, nm) for modname, mod in fresh_modules().items() for nm in mod.NAMES]
+    return out + [('built', nm) for nm in ('post-object', 'pre-nan', 'mixed')]
+
+
+def fresh_get(modname, nm):
+    """-> (a freshly obtained upgraded signature, the inspect signature or None)"""
+    import sigtools
+    if modname == 'built':
+        nan = float('nan')
+        f = fn_of(100)
+        if nm == 'post-object':
+            ps = [UP('a', P.POSITIONAL_OR_KEYWORD, annotation='object()',
+                     upgraded_annotation=S._PostponedAnnotation('object()', f), function=f, sources=[f])]
+            return US(ps, return_annotation='object()',
+                      upgraded_return_annotation=S._PostponedAnnotation('object()', f), sources={'a': [f], '+depths': {f: 0}}), None
+        if nm == 'pre-nan':
+            ps = [UP('a', P.POSITIONAL_ONLY, annotation=nan, default=1,
+                     upgraded_annotation=S._PreEvaluatedAnnotation(nan), function=f, sources=[f]),
+                  UP('k', P.KEYWORD_ONLY, annotation=nan, upgraded_annotation=S._PreEvaluatedAnnotation(nan))]
+            return US(ps, return_annotation=nan, upgraded_return_annotation=S._PreEvaluatedAnnotation(nan),
+                      sources={'a': [f], '+depths': {f: 0}}), None
+        ps = [UP('a', P.POSITIONAL_OR_KEYWORD, annotation=11, upgraded_annotation=S._PostponedAnnotation('float("nan")', f)),
+              UP('rest', P.VAR_KEYWORD, annotation='[object()]', upgraded_annotation=S._PostponedAnnotation('[object()]', f))]
+        return US(ps, upgraded_return_annotation=S._PostponedAnnotation('{"k": object()}', f)), None
+    obj = fresh_modules()[modname]
+    for part in nm.split('.'):
+        obj = getattr(obj, part)
+    with warnings.catch_warnings():
+        warnings.simplefilter('ignore')
+        return sigtools.signature(obj), inspect.signature(obj)
+
+
+def reflexive_bad(x, what):
+    bad = []
+    r = cmp_out(lambda: x == x)
+    if r[0] != 'T':
+        bad.append(('C14:eq-reflexive', '%s: x == x gave %s %s' % (what, r[0], r[1] or '')))
+    r = cmp_out(lambda: x != x)
+    if r[0] != 'F':
+        bad.append(('C14:eq-reflexive', '%s: x != x gave %s %s' % (what, r[0], r[1] or '')))
+    return bad
+
+
+def oracle_bad(x, plain_of, what):
+    """x against its plain counterpart must answer what inspect answers for two
+    plain counterparts (NaN-valued data make even those unequal)"""
+    bad = []
+    p1, p2 = plain_of(x), plain_of(x)
+    want = cmp_out(lambda: p2 == p1)[0]
+    for lab, th in (('x == plain(x)', lambda: x == p1), ('plain(x) == x', lambda: p1 == x)):
+        r = cmp_out(th)
+        if r[0] != want:
+            bad.append(('C14:eq-plain-counterpart', '%s: %s gave %s %s, two plain counterparts give %s' % (what, lab, r[0], r[1] or '', want)))
+    hp, hx = hash_out(p1), hash_out(x)
+    if (hp is None) != (hx is None):
+        bad.append(('C14:hashable', '%s: hashable = %s, plain counterpart hashable = %s' % (what, hx is not None, hp is not None)))
+    elif hp is not None and hp != hx:
+        bad.append(('C14:eq-hash', '%s: hash differs from the plain counterpart\'s hash' % what))
+    return bad
+
+
+def bound_eq_bad(sig, what, limit=12):
+    """BoundArguments of the same call compare as those of the plain signature"""
+    bad = []
+    plain = plain_sig_of(sig)
+    done = 0
+    for n, ks in call_shapes(sig):
+        args = tuple(range(10, 10 + n))
+        kw = {k: 'v' + k for k in ks}
+        for meth in ('bind', 'bind_partial'):
+            try:
+                r1, r2 = getattr(plain, meth)(*args, **kw), getattr(plain, meth)(*args, **kw)
+            except TypeError:
+                continue
+            want = (cmp_out(lambda: r1 == r2)[0], cmp_out(lambda: r1 != r2)[0])
+            try:
+                b1, b2 = getattr(sig, meth)(*args, **kw), getattr(sig, meth)(*args, **kw)
+            except TypeError:
+                continue          # reported by decide_bind
+            got = (cmp_out(lambda: b1 == b2)[0], cmp_out(lambda: b1 != b2)[0])
+            if got != want:
+                bad.append(('C14:bind-eq', '%s: %s(*%r, **%r) == the same again gives (==, !=) = %s, with the plain signature %s' % (
+                    what, meth, args, kw, got, want)))
+            done += 1
+        if done >= limit or len(bad) >= 3:
+            break
+    return bad
+
+
+def decide_fresh(modname, nm):
+    """Section F on one named object.  -> (n_checks, [(key, what)])"""
+    x, insp = fresh_get(modname, nm)
+    y, _ = fresh_get(modname, nm)
+    what = 'sigtools.signature(%s)' % nm if modname != 'built' else 'built signature %s' % nm
+    bad = list(reflexive_bad(x, what))
+    n = 2
+    anns = [('upgraded_return_annotation', x.upgraded_return_annotation)]
+    for p in x.parameters.values():
+        bad += reflexive_bad(p, '%s.parameters[%r]' % (what, p.name))
+        bad += oracle_bad(p, plain_param_of, '%s.parameters[%r]' % (what, p.name))
+        anns.append(('parameters[%r].upgraded_annotation' % p.name, p.upgraded_annotation))
+        q = y.parameters[p.name]
+        bad += [(k, '%s.parameters[%r] vs second retrieval: %s' % (what, p.name, w)) for k, w in decide_pair(p, q, False)[1]]
+        bad += [(k, '%s.parameters[%r] vs plain: %s' % (what, p.name, w)) for k, w in decide_pair(p, plain_param_of(p), False)[1]]
+        n += 14
+    for lab, a in anns:
+        bad += reflexive_bad(a, '%s.%s' % (what, lab))
+        n += 2
+    bad += oracle_bad(x, plain_sig_of, what)
+    partners = [('second retrieval', y), ('plain counterpart', plain_sig_of(x)), ('x.replace()', x.replace()),
+                ('None', None)]
+    if insp is not None:
+        partners.append(('inspect.signature', insp))
+    for lab, b in partners:
+        bad += [(k, '%s vs %s: %s' % (what, lab, w)) for k, w in decide_pair(x, b, False)[1]]
+        n += 4
+    bad += bound_eq_bad(x, what)
+    n += 12
+    return n, bad
+
 
 _REAL = {}
 _TMP = []
@@ -1120,7 +1304,7 @@ def run_sig_replace(s, args, reg):
         return None, bad
     if want_err:
         bad.append(('C14:replace-raises', 'replace accepted arguments for which the plain signature raises ' + want_err))
-        return describe_sig(r), bad
+        return _desc(describe_sig, r, bad), bad
     if type(r) is not type(o):
         bad.append(('C14:replace-type', 'replace returned a %s' % type(r).__name__))
         return None, bad
@@ -1151,7 +1335,7 @@ def run_sig_replace(s, args, reg):
                 bad.append(('C14:replace-parameters', 'upgraded parameter %s was not kept as is' % old.name))
         elif not (isinstance(new, UP) and new.upgraded_annotation is S.EmptyAnnotation and new.sources == []):
             bad.append(('C14:replace-parameters', 'plain parameter %s was not upgraded to an empty upgraded parameter' % old.name))
-    return describe_sig(r), bad
+    return _desc(describe_sig, r, bad), bad
 
 
 def cq_sreplace(args):
@@ -1229,7 +1413,7 @@ def run_param_replace(p, args, reg):
         return None, bad
     if want_err:
         bad.append(('C14:replace-raises', 'Parameter.replace accepted arguments for which the plain parameter raises ' + want_err))
-        return describe_param(r), bad
+        return _desc(describe_param, r, bad), bad
     if type(r) is not type(o):
         bad.append(('C14:replace-type', 'Parameter.replace returned a %s' % type(r).__name__))
         return None, bad
@@ -1245,7 +1429,7 @@ def run_param_replace(p, args, reg):
                 field, getattr(o, attr), getattr(r, attr))))
         elif field == 'upgraded_annotation' and field not in kw and r.upgraded_annotation is not o.upgraded_annotation:
             bad.append(('C14:replace-upgraded-annotation', 'Parameter.replace did not keep upgraded_annotation'))
-    return describe_param(r), bad
+    return _desc(describe_param, r, bad), bad
 
 
 def cq_preplace(args):
@@ -1323,7 +1507,7 @@ def run(ctx, rep):
         trio = [{'real': (modname, nm, variant)} for variant in ('r0', 'r1', 'inspect')]
         try:
             for r in trio:
-                resolve_real(r)
+                describe_sig(resolve_real(r))      # also: well-formed enough to be described
         except Exception as e:  # noqa: BLE001  (retrieval itself is C07's subject)
             failed.append('%s: %s' % (nm, type(e).__name__))
             continue
@@ -1433,6 +1617,24 @@ def run(ctx, rep):
     termlists.append(('ok_peq', qterms))
     termlists.append(('ok_phash', phterms))
 
+    # ---- F: values not equal to a re-evaluation of themselves (harness only, no model)
+    n_fresh = 0
+    fresh_failed = []
+    for modname, nm in fresh_names():
+        try:
+            n, bad = decide_fresh(modname, nm)
+        except Exception as e:  # noqa: BLE001  (retrieval itself is C07's subject)
+            fresh_failed.append('%s: %s: %s' % (nm, type(e).__name__, e))
+            continue
+        n_fresh += n
+        evaluations += n
+        rep.distinct.add(('F', modname, nm))
+        for key, what in bad:
+            hist[key] = hist.get(key, 0) + 1
+            _viol(rep, key, what, {'kind': 'fresh', 'module': modname, 'name': nm})
+    rep.coverage['fresh_value_checks'] = n_fresh
+    rep.coverage['fresh_retrieval_failed'] = fresh_failed
+
     # ---- B: str / bind / bind_partial
     bind_sigs = [(s, None) for s in sigs] + [(None, r) for r in reals if r['real'][2] != 'inspect']
     if ctx.quick:
@@ -1441,6 +1643,7 @@ def run(ctx, rep):
         o = build_obj(s, {}) if s is not None else resolve_real(r)
         d = s if s is not None else describe_sig(o)
         n_shapes, bad, model = decide_bind(o)
+        bad = bad + [(k, w, None) for k, w in bound_eq_bad(o, 'sig', limit=4)]
         n_shapes_total += n_shapes
         for key, what, shape in bad:
             hist[key] = hist.get(key, 0) + 1
@@ -1590,7 +1793,10 @@ def _replay_bad(r):
     if kind == 'single':
         return decide_single(build_obj(r['a'], reg))[1]
     if kind == 'bind':
-        return [(k, w) for k, w, s in decide_bind(build_obj(r['a'], reg))[1]]
+        o = build_obj(r['a'], reg)
+        return [(k, w) for k, w, s in decide_bind(o)[1]] + bound_eq_bad(o, 'sig', limit=4)
+    if kind == 'fresh':
+        return decide_fresh(r['module'], r['name'])[1]
     if kind == 'sreplace':
         args = dict(r['args'])
         if 'sources' in args:
